@@ -27,6 +27,8 @@ type c02Cand struct {
 	Late   func() string `json:"-"`
 	// HSCaps, if non-zero, are the capability bits of the handshake (default: the server's)
 	HSCaps uint16 `json:"handshake_caps,omitempty"`
+	// HTTPCookie, if set, is sent as Cookie header on the tunnel's HTTP request(s)
+	HTTPCookie string `json:"http_cookie_header,omitempty"`
 }
 
 func CheckC02(l *Lab, verifDir string) int {
@@ -114,6 +116,24 @@ func CheckC02(l *Lab, verifDir string) int {
 			add(c02Cand{Name: fmt.Sprintf("bitflip seg%d bit%d", si, bit), Class: fmt.Sprintf("bit-flip/seg%d", si), Cookie: strings.Join(m, "."), Want: "reject"})
 		}
 	}
+	// characters replaced by non-ASCII characters with the same low byte (U+01xx, U+FFxx): another string
+	for _, hi := range []rune{0x0100, 0xFF00, 0x2000} {
+		for _, pos := range []int{0, 1, len(segs[0]) + 1, len(segs[0]) + len(segs[1]) + 2, len(base) / 2, len(base) - 1} {
+			if pos >= len(base) || base[pos] == '.' {
+				continue
+			}
+			rs := []rune(base)
+			rs[pos] = hi + rune(base[pos])
+			add(c02Cand{Name: fmt.Sprintf("character %d replaced by U+%04X", pos, rs[pos]), Class: "unicode-fold", Cookie: string(rs), Want: "reject"})
+		}
+	}
+	add(c02Cand{Name: "every character moved to U+01xx", Class: "unicode-fold", Cookie: func() string {
+		rs := []rune(base)
+		for i := range rs {
+			rs[i] += 0x0100
+		}
+		return string(rs)
+	}(), Want: "reject"})
 	for cut := 0; cut < len(base); cut += l.Pick(11, 1) {
 		add(c02Cand{Name: fmt.Sprintf("truncated at %d", cut), Class: "truncation", Cookie: base[:cut], Want: "reject"})
 	}
@@ -281,6 +301,15 @@ func CheckC02(l *Lab, verifDir string) int {
 		c02Present(rep, f, c02Cand{Name: "valid, presented again", Class: "idp/valid", Cookie: tok, Want: "accept"})
 		f.IdP.SetTokenMode(spec.AccessToken, "revoked")
 		c02Present(rep, f, c02Cand{Name: "revoked after a successful use", Class: "idp/revoked", Cookie: tok, Want: "reject", ATMode: "revoked"})
+		// ... also when the tunnel's HTTP request carries the web session cookie of a browser whose own
+		// access token the IdP still honours: the cookie's embedded token is the one that counts
+		{
+			ob := NewBrowser(f.GW, "")
+			if _, _, err := ob.Login(fmt.Sprintf("otheruser%d", round), "host="+host); err == nil {
+				c02Present(rep, f, c02Cand{Name: "revoked, presented with another browser's session cookie", Class: "idp/revoked", Cookie: tok, Want: "reject", ATMode: "revoked", HTTPCookie: ob.cookieHeader()})
+			}
+			c02Present(rep, f, c02Cand{Name: "revoked, presented with the issuing browser's session cookie", Class: "idp/revoked", Cookie: tok, Want: "reject", ATMode: "revoked", HTTPCookie: br.cookieHeader()})
+		}
 		f.IdP.SetTokenMode(spec.AccessToken, "500")
 		c02Present(rep, f, c02Cand{Name: "userinfo answers 500 for this token", Class: "idp/error", Cookie: tok, Want: "reject", ATMode: "500"})
 		f.IdP.SetTokenMode(spec.AccessToken, "valid")
@@ -303,6 +332,9 @@ func c02Present(rep *Report, f *Fixture, c c02Cand) {
 	env := f.Env("ws")
 	if len(c.Name)%5 == 0 {
 		env = f.Env("legacy")
+	}
+	if c.HTTPCookie != "" {
+		env.Headers = append(append(Hdr{}, env.Headers...), [2]string{"Cookie", c.HTTPCookie})
 	}
 	var t *TClient
 	var err error
